@@ -17,6 +17,10 @@ mod c04;
 mod cpcm;
 mod c05;
 mod c06;
+mod cmm;
+mod c08;
+mod bloomm;
+mod c09;
 mod spec_misc;
 mod spec_cpc;
 mod obs;
@@ -29,6 +33,8 @@ mod c13_more;
 mod e4;
 mod c14;
 mod c14_more;
+mod c17;
+mod c17_more;
 
 #[global_allocator]
 static GLOBAL: e4::Guard = e4::Guard;
@@ -92,6 +98,9 @@ fn main() {
         "C13" => c13::run(&Ctx::new("C13", tier)),
         "worker" => e4::worker_main(&c14::run_entry),
         "C14" => c14::run(&Ctx::new("C14", tier)),
+        "C17" => c17::run(&Ctx::new("C17", tier).reduced().with_filter(c17::filter())),
+        "C08" => c08::run(&Ctx::new("C08", tier)),
+        "C09" => c09::run(&Ctx::new("C09", tier)),
         "C06" => c06::run(&Ctx::new("C06", tier).with_filter(|k| !k.contains("cpc.bounds"))),
         "C05" => c05::run(&Ctx::new("C05", tier).with_filter(|k| !k.starts_with("cpc.bounds"))),
         "C04" => c04::run(&Ctx::new("C04", tier).with_filter(|k| !k.starts_with("theta.bounds"))),
